@@ -39,10 +39,10 @@ Atoms(f) ==
       [] f = "into_struct"   -> {"bare", "owned", "ref", "ref_mut", "owned_ref", "ref_refmut", "all3", "all3_comma", "ty_a", "ty_b", "ty_ab", "unknown_form",
                                  "legacy_types", "mixed_forms", "forms_nocomma"}
       [] f = "into_field"    -> {"skip", "ignore"}
-      [] f = "legacy_field"  -> {"sel", "ignore", "forward", "unknown", "eq_value", "name_value", "lit_param", "not_foreign", "not_unneg"}
-      [] f = "legacy_forms"  -> {"owned", "ref", "ref_mut", "owned_ref", "all3", "unknown", "list_param", "name_value", "not_foreign", "not_unneg"}
+      [] f = "legacy_field"  -> {"sel", "ignore", "forward", "unknown", "eq_value", "name_value", "lit_param", "not_foreign", "not_unneg", "dup_flag", "contra_flag"}
+      [] f = "legacy_forms"  -> {"owned", "ref", "ref_mut", "owned_ref", "all3", "unknown", "list_param", "name_value", "not_foreign", "not_unneg", "dup_flag"}
       [] f = "error_field"   -> {"source", "not_source", "backtrace", "ignore", "source_backtrace", "unknown", "nested_not", "not_unknown",
-                                 "list_param", "not_foreign", "not_unneg"}
+                                 "list_param", "not_foreign", "not_unneg", "dup_flag", "contra_flag"}
 
 Corrupt(f, a) == a \in {"legacy_fmt", "legacy_bound", "unknown", "legacy_types", "rename_bad", "unknown_form", "eq_value",
                          \* malformed parameter shapes of the State-based derives and of Into
@@ -52,6 +52,8 @@ Corrupt(f, a) == a \in {"legacy_fmt", "legacy_bound", "unknown", "legacy_types",
                          "not_foreign", "not_unneg",
                          \* two entries of a list with no comma between them (`#[into(ref(i32) ref_mut)]`)
                          "forms_nocomma",
+                         \* one attribute giving a flag twice (`forward, forward`) or together with its negation (`source, not(source)`)
+                         "dup_flag", "contra_flag",
                          \* a bare `#[from]` chooses among VARIANTS: on a struct it means nothing and is rejected
                          \* (`#[from(skip)]` on a struct is a type list naming a type called `skip`: C08's subject)
                          "variant_only_from"}
